@@ -191,6 +191,41 @@ theorem storeNets_spec (n : Node) :
     · simp only [hkv, hfr.nets, hfr.managed]
     · simp only [hkv, hh, hfr.nets, hfr.managed]
 
+/-- `MatterState::store_resumption`: either the resumption blob is written (the cache as it is) and
+the failure mark is cleared, or the call fails, the store is untouched and the failure is remembered -/
+theorem storeResum_spec (n : Node) :
+    Frame n (storeResum n).1 ∧ (storeResum n).1.kv.fabs = n.kv.fabs ∧ (storeResum n).1.kv.nets = n.kv.nets ∧
+    (((storeResum n).2 = false ∧ (storeResum n).1.kv = n.kv ∧ (storeResum n).1.hist = n.hist ∧
+        (storeResum n).1.resumStale = true) ∨
+     ((storeResum n).2 = true ∧ (storeResum n).1.kv = { n.kv with resum := .recs n.resum } ∧
+      (storeResum n).1.hist = { n.kv with resum := .recs n.resum } :: n.hist ∧
+        (storeResum n).1.resumStale = false)) := by
+  have ⟨hfr, hkv, hh⟩ := kvTick_frame n
+  unfold storeResum
+  rcases ht : kvTick n with ⟨n1, bad⟩
+  rw [ht] at hfr hkv hh
+  simp only at hfr hkv hh
+  cases bad with
+  | true =>
+    simp only [if_true]
+    exact ⟨⟨hfr.fabrics, hfr.sessions, hfr.resum, hfr.fs, hfr.nets, hfr.managed, hfr.nextGen⟩,
+      by rw [hkv], by rw [hkv], Or.inl ⟨triv, hkv, hh, triv⟩⟩
+  | false =>
+    simp only [Bool.false_eq_true, if_false, kvCommit]
+    refine ⟨⟨hfr.fabrics, hfr.sessions, hfr.resum, hfr.fs, hfr.nets, hfr.managed, hfr.nextGen⟩, ?_, ?_,
+      Or.inr ⟨triv, ?_, ?_, triv⟩⟩
+    · simp only [hkv]
+    · simp only [hkv]
+    · simp only [hkv, hfr.resum]
+    · simp only [hkv, hfr.resum, hh]
+
+/-- `MatterState::retry_resumption_store`: nothing, or `store_resumption` -/
+theorem retryResum_cases (n : Node) : retryResum n = (n, true) ∨ retryResum n = storeResum n := by
+  unfold retryResum
+  split
+  · exact Or.inr rfl
+  · exact Or.inl rfl
+
 /-- `MatterState::purge_resumption_for_fabric`: the records of `idx` are gone from the cache; the
 store is touched in its resumption blob only (if at all) -/
 theorem purgeResum_spec (n : Node) (idx : Nat) :
@@ -204,36 +239,27 @@ theorem purgeResum_spec (n : Node) (idx : Nat) :
       (purgeResum n idx).1.kv = { n.kv with resum := .recs (n.resum.filter (fun r => r.fab ≠ idx)) } ∧
       (purgeResum n idx).1.hist = { n.kv with resum := .recs (n.resum.filter (fun r => r.fab ≠ idx)) } :: n.hist)) := by
   unfold purgeResum
-  generalize hn0 : ({ n with resum := n.resum.filter (fun r => decide (r.fab ≠ idx)) } : Node) = n0
-  have ⟨hfr, hkv, hh⟩ := kvTick_frame n0
-  rcases ht : kvTick n0 with ⟨n1, bad⟩
-  rw [ht] at hfr hkv hh
-  simp only at hfr hkv hh
-  have e1 : n0.fabrics = n.fabrics := by rw [← hn0]
-  have e2 : n0.sessions = n.sessions := by rw [← hn0]
-  have e3 : n0.fs = n.fs := by rw [← hn0]
-  have e4 : n0.nets = n.nets := by rw [← hn0]
-  have e5 : n0.managed = n.managed := by rw [← hn0]
-  have e6 : n0.nextGen = n.nextGen := by rw [← hn0]
-  have e7 : n0.resum = n.resum.filter (fun r => decide (r.fab ≠ idx)) := by rw [← hn0]
-  have e8 : n0.kv = n.kv := by rw [← hn0]
-  have e9 : n0.hist = n.hist := by rw [← hn0]
-  simp only [ht]
-  cases bad with
-  | true =>
-    simp only [if_true]
-    exact ⟨by rw [hfr.fabrics, e1], by rw [hfr.sessions, e2], by rw [hfr.fs, e3], by rw [hfr.nets, e4],
-      by rw [hfr.managed, e5], by rw [hfr.nextGen, e6], by rw [hfr.resum, e7], by rw [hkv, e8], by rw [hkv, e8],
-      Or.inl ⟨by rw [hkv, e8], by rw [hh, e9]⟩⟩
-  | false =>
-    simp only [Bool.false_eq_true, if_false, kvCommit]
-    refine ⟨by rw [hfr.fabrics, e1], by rw [hfr.sessions, e2], by rw [hfr.fs, e3], by rw [hfr.nets, e4],
-      by rw [hfr.managed, e5], by rw [hfr.nextGen, e6], by rw [hfr.resum, e7], ?_, ?_, Or.inr ⟨triv, ?_, ?_⟩⟩
-    · simp only [hkv, e8]
-    · simp only [hkv, e8]
-    · simp only [hkv, e8, hfr.resum, e7]
-    · simp only [hkv, e8, hfr.resum, e7, hh, e9]
+  have ⟨hfr, hf, hn, hst⟩ := storeResum_spec { n with resum := n.resum.filter (fun r => decide (r.fab ≠ idx)) }
+  refine ⟨hfr.fabrics, hfr.sessions, hfr.fs, hfr.nets, hfr.managed, hfr.nextGen, hfr.resum, hf, hn, ?_⟩
+  rcases hst with ⟨_, hkv, hh, _⟩ | ⟨hb, hkv, hh, _⟩
+  · exact Or.inl ⟨hkv, hh⟩
+  · exact Or.inr ⟨hb, hkv, hh⟩
 
+/-- `AddNOC` = the retry of a failed resumption-cache store, then `addNoc`: a predicate kept by both
+is kept by the command -/
+theorem sessOp_addnoc_lift {P : Node → Prop} (cfg : Cfg) (n : Node) (sid s ca fid node subj ser : Nat) (mode : Mode)
+    (hs : ∀ m, P m → P (storeResum m).1) (ha : ∀ m, P m → P (addNoc cfg m sid mode ca fid node subj ser).1)
+    (h : P n) : P (sessOp cfg n sid mode (.addnoc s ca fid node subj ser)).1 := by
+  simp only [sessOp]
+  rcases retryResum_cases n with hr | hr
+  · rw [hr]; exact ha n h
+  · rw [hr]
+    have h1 := hs n h
+    rcases hst : storeResum n with ⟨n1, b⟩
+    rw [hst] at h1
+    cases b with
+    | false => exact h1
+    | true => exact ha n1 h1
 
 /-! ## coherence of node and store, store faults included -/
 
@@ -278,6 +304,10 @@ theorem cohD_congr {n n' : Node} {D : List Nat} (h1 : n'.fabrics = n.fabrics) (h
 theorem cohD_frame {n n' : Node} {D : List Nat} (hf : Frame n n') (h5 : n'.kv.fabs = n.kv.fabs)
     (h6 : n'.kv.nets = n.kv.nets) (h : CohD n D) : CohD n' D :=
   cohD_congr hf.fabrics hf.fs hf.nets hf.managed h5 h6 h
+
+theorem storeResum_cohD (n : Node) (D : List Nat) (hc : CohD n D) : CohD (storeResum n).1 D := by
+  have ⟨hfr, hf, hn, _⟩ := storeResum_spec n
+  exact cohD_frame hfr hf hn hc
 
 /-- a change of the fail-safe context that keeps its fabric (re-arming, a flag) or starts a context -/
 theorem cohD_setfs {n : Node} {D : List Nat} (b : Armed) (bc st : Nat) (hc : CohD n D)
@@ -578,6 +608,35 @@ theorem expire_cohD (cfg : Cfg) (n : Node) (D : List Nat) (exp : Option Nat) (hc
 
 
 /-! ### the commands -/
+
+/-- the undo of the first write of a failed CommissioningComplete touches the store only at the
+index the fail-safe is armed for, and only for a fabric added under it -/
+theorem undoAdded_cohD (n : Node) (D : List Nat) (idx : Nat) (hc : CohD n D) : CohD (undoAdded n idx) D := by
+  unfold undoAdded
+  split
+  · rename_i had
+    unfold addingFabric at had
+    cases hfs : n.fs with
+    | none => simp [hfs] at had
+    | some a =>
+      simp only [hfs, Bool.and_eq_true, beq_iff_eq] at had
+      have ⟨hfr, hn, _, hst⟩ := removeFabricKey_spec n idx
+      have hkvF : ∀ i, i ≠ idx → kvF (removeFabricKey n idx).1.kv i = kvF n.kv i := by
+        intro i hi
+        rcases hst with ⟨_, hk, _⟩ | ⟨_, hk, _⟩
+        · rw [hk, if_neg hi]
+        · rw [hk]
+      refine ⟨fun i hi he hd => ?_, fun hnone => ?_, fun b hb _ _ _ h3 => ?_⟩
+      · have hex : exemptIdx (removeFabricKey n idx).1 = idx := by simp [exemptIdx, hfr.fs, hfs, had.1]
+        rw [hex] at he
+        rw [hkvF i he]
+        simp only [getFabric, hfr.fabrics]
+        exact hc.1 i hi (by simp [exemptIdx, hfs, had.1]; exact he) hd
+      · rw [hfr.fs, hfs] at hnone; cases hnone
+      · have : b = a := by rw [hfr.fs, hfs] at hb; simpa using hb.symm
+        subst this
+        rw [had.2] at h3; cases h3
+  · exact hc
 
 /-- what a command adds to the dirty set: the fabric of a fabric-scoped write that was answered
 with a store error -/
@@ -938,7 +997,7 @@ theorem sessOp_complete_cohD (cfg : Cfg) (n : Node) (D : List Nat) (sid s : Nat)
             simp only []
             have hc2 : CohD n2 D := cohD_frame hfr2 (by rw [hkv2]) (by rw [hkv2]) hc1m
             refine ⟨?_, by simp⟩
-            exact cohD_nets_armed n2.nets n1.managed hc2 (by rw [hfr2.fs, hfs1m]; simp)
+            exact undoAdded_cohD _ D f.idx (cohD_nets_armed n2.nets n1.managed hc2 (by rw [hfr2.fs, hfs1m]; simp))
         · subst hb1
           simp only []
           exact ⟨cohD_frame hfr1 (by rw [hkv1]) (by rw [hkv1]) hc, by simp⟩
@@ -974,10 +1033,10 @@ theorem cohD_rebind {n n' : Node} {D : List Nat} (a b : Armed) (idx : Nat) (hc :
     subst this
     rw [hbf] at h3; cases h3
 
-theorem sessOp_addnoc_cohD (cfg : Cfg) (n : Node) (D : List Nat) (sid s ca fid node subj ser : Nat) (mode : Mode)
+theorem addNoc_cohD (cfg : Cfg) (n : Node) (D : List Nat) (sid ca fid node subj ser : Nat) (mode : Mode)
     (hc : CohD n D) :
-    CohD (sessOp cfg n sid mode (.addnoc s ca fid node subj ser)).1 D := by
-  unfold sessOp
+    CohD (addNoc cfg n sid mode ca fid node subj ser).1 D := by
+  unfold addNoc
   cases hca : checkArmed n mode with
   | some e => exact hc
   | none =>
@@ -1140,6 +1199,12 @@ theorem addSess_cohD (cfg : Cfg) (n : Node) (D : List Nat) (mode : Mode) (peer g
   · exact cohD_congr triv triv triv triv triv triv hc
   · exact cohD_congr triv triv triv triv triv triv hc
 
+theorem sessOp_addnoc_cohD (cfg : Cfg) (n : Node) (D : List Nat) (sid s ca fid node subj ser : Nat) (mode : Mode)
+    (hc : CohD n D) :
+    CohD (sessOp cfg n sid mode (.addnoc s ca fid node subj ser)).1 D :=
+  sessOp_addnoc_lift (P := fun m => CohD m D) cfg n sid s ca fid node subj ser mode
+    (fun m hm => storeResum_cohD m D hm) (fun m hm => addNoc_cohD cfg m D sid ca fid node subj ser mode hm) hc
+
 theorem getSess_mem {n : Node} {sid : Nat} {s : Sess} (h : getSess n sid = some s) : s ∈ n.sessions ∧ s.id = sid := by
   unfold getSess at h
   exact ⟨List.mem_of_find?_eq_some h, by simpa using List.find?_some h⟩
@@ -1285,18 +1350,11 @@ theorem step_cohD (cfg : Cfg) (n : Node) (D : List Nat) (op : Op) (hc : CohD n D
       rw [hr] at this
       cases e <;> exact this
     | flush =>
-      have ⟨hfr, hkv, _⟩ := kvTick_frame n
-      rcases ht : kvTick n with ⟨n1, bad⟩
-      rw [ht] at hfr hkv
-      simp only at hfr hkv
-      simp only [step, isSessOp, dirtyStep, ht]
-      cases bad with
-      | true =>
-        simp only [if_true]
-        exact cohD_frame hfr (by rw [hkv]) (by rw [hkv]) hc
-      | false =>
-        simp only [Bool.false_eq_true, if_false, ok, kvCommit]
-        exact cohD_congr hfr.fabrics hfr.fs hfr.nets hfr.managed (by simp [hkv]) (by simp [hkv]) hc
+      have h1 := storeResum_cohD n D hc
+      simp only [step, isSessOp, dirtyStep]
+      rcases hst : storeResum n with ⟨n1, b⟩
+      rw [hst] at h1
+      cases b <;> exact h1
     | restart =>
       simp only [step, isSessOp, dirtyStep, ok]
       exact cohD_of_agree [] (restartFrom_agree n n.kv n.hist).1
@@ -1369,5 +1427,141 @@ theorem run_append (cfg : Cfg) (n : Node) (a b : List Op) : run cfg n (a ++ b) =
   induction a generalizing n with
   | nil => rfl
   | cons op rest ih => exact ih _
+
+/-! ### the factory reset -/
+
+theorem delFabricKeys_keep (hi : Nat) : ∀ (fuel i : Nat) (cur : KV) (acc : List KV),
+    (delFabricKeys hi i fuel cur acc).1.nets = cur.nets ∧ (delFabricKeys hi i fuel cur acc).1.resum = cur.resum := by
+  intro fuel
+  induction fuel with
+  | zero => intro i cur acc; simp [delFabricKeys]
+  | succ fuel ih =>
+    intro i cur acc
+    simp only [delFabricKeys]
+    split
+    · exact ⟨rfl, rfl⟩
+    · split
+      · have := ih (i + 1) (cur.delFabric i) (cur.delFabric i :: acc)
+        exact ⟨this.1, this.2⟩
+      · exact ih (i + 1) cur acc
+
+/-- what a factory reset leaves in memory - whether a store call fails or not: no fabric, no session
+of a fabric, no resumption record (repo fix of `C07-factory-reset-keeps-sessions`) -/
+theorem factoryReset_mem (n : Node) :
+    (factoryReset n).1.fabrics = [] ∧
+    (factoryReset n).1.sessions = n.sessions.filter (fun s => s.mode.fab = 0) ∧
+    (factoryReset n).1.resum = [] ∧ (factoryReset n).1.resumStale = false ∧
+    (factoryReset n).1.kv.resum = .absent ∧ (factoryReset n).1.kv.nets = none ∧
+    (factoryReset n).1.nets = [] ∧ (factoryReset n).1.fs = n.fs := by
+  unfold factoryReset
+  have hk := delFabricKeys_keep (if n.failIn ≠ 0 then n.failIn else 256) 256 1 n.kv n.hist
+  rcases hd : delFabricKeys (if n.failIn ≠ 0 then n.failIn else 256) 1 256 n.kv n.hist with ⟨kv1, hist1⟩
+  rw [hd] at hk
+  simp only at hk
+  simp only [kvCommit]
+  refine ⟨?_, ?_, ?_, ?_, ?_, ?_, ?_, ?_⟩
+  all_goals (repeat' split) <;> simp_all
+
+theorem delFabricKeys_spec (hi : Nat) : ∀ (fuel i : Nat) (cur : KV) (acc : List KV),
+    (delFabricKeys hi i fuel cur acc).1.fabs = cur.fabs.filter (fun f => !(decide (i ≤ f.idx) && decide (f.idx < min hi (i + fuel)))) ∧
+    (delFabricKeys hi i fuel cur acc).1.nets = cur.nets ∧ (delFabricKeys hi i fuel cur acc).1.resum = cur.resum := by
+  intro fuel
+  induction fuel with
+  | zero =>
+    intro i cur acc
+    refine ⟨?_, by simp [delFabricKeys], by simp [delFabricKeys]⟩
+    simp only [delFabricKeys]
+    rw [eq_comm, List.filter_eq_self]
+    intro f _
+    simp; omega
+  | succ fuel ih =>
+    intro i cur acc
+    by_cases hge : i ≥ hi
+    · refine ⟨?_, by simp [delFabricKeys, hge], by simp [delFabricKeys, hge]⟩
+      simp only [delFabricKeys, hge, if_true]
+      rw [eq_comm, List.filter_eq_self]
+      intro f _
+      simp; omega
+    · by_cases hk : cur.hasFabric i = true
+      · have ⟨h1, h2, h3⟩ := ih (i + 1) (cur.delFabric i) (cur.delFabric i :: acc)
+        have heq : delFabricKeys hi i (fuel + 1) cur acc =
+            delFabricKeys hi (i + 1) fuel (cur.delFabric i) (cur.delFabric i :: acc) := by
+          simp [delFabricKeys, hge, hk]
+        rw [heq]
+        refine ⟨?_, by rw [h2]; rfl, by rw [h3]; rfl⟩
+        rw [h1]
+        simp only [KV.delFabric, List.filter_filter]
+        apply List.filter_congr
+        intro f _
+        by_cases hfi : f.idx = i
+        · have : ¬ (i ≥ hi) := hge
+          simp [hfi]; omega
+        · rw [Bool.eq_iff_iff]
+          simp [hfi]
+          constructor <;> intro h <;> omega
+      · have ⟨h1, h2, h3⟩ := ih (i + 1) cur acc
+        have heq : delFabricKeys hi i (fuel + 1) cur acc = delFabricKeys hi (i + 1) fuel cur acc := by
+          simp [delFabricKeys, hge, hk]
+        rw [heq]
+        refine ⟨?_, h2, h3⟩
+        rw [h1]
+        apply List.filter_congr
+        intro f hf
+        have hne : f.idx ≠ i := by
+          intro he
+          apply hk
+          unfold KV.hasFabric
+          rw [List.any_eq_true]
+          exact ⟨f, hf, by simpa using he⟩
+        rw [Bool.eq_iff_iff]
+        simp
+        constructor <;> intro h <;> omega
+
+/-- the fabric keys a factory reset without a store fault leaves: none, when every stored index is
+in the key range `1..255` that `Fabrics::reset_persist` walks (fabric indices are `u8` in the code) -/
+theorem factoryReset_store (n : Node) (hf : n.failIn = 0)
+    (hrange : ∀ f ∈ n.kv.fabs, 1 ≤ f.idx ∧ f.idx ≤ 255) :
+    (factoryReset n).1.kv.fabs = [] ∧ (factoryReset n).2 = .ok := by
+  have hempty : (delFabricKeys 256 1 256 n.kv n.hist).1.fabs = [] := by
+    rw [(delFabricKeys_spec 256 256 1 n.kv n.hist).1, List.filter_eq_nil_iff]
+    intro f hfm
+    have := hrange f hfm
+    simp; omega
+  unfold factoryReset
+  simp only [hf, ne_eq, not_true_eq_false, if_false]
+  rcases hd : delFabricKeys 256 1 256 n.kv n.hist with ⟨kv1, hist1⟩
+  rw [hd] at hempty
+  simp only at hempty
+  simp only [kvCommit]
+  refine ⟨?_, trivial⟩
+  (repeat' split) <;> simp_all
+
+/-- a factory reset issued in state `n` is *clean*: no store fault is pending, and every stored fabric
+index is in the key range `1..255` that `Fabrics::reset_persist` walks (a `u8` in the code; the model
+hands out indices in `1..254` only, but the range is not carried as an invariant) -/
+def ResetClean (n : Node) : Prop := n.failIn = 0 ∧ ∀ f ∈ n.kv.fabs, 1 ≤ f.idx ∧ f.idx ≤ 255
+
+instance (n : Node) : Decidable (ResetClean n) := by unfold ResetClean; infer_instance
+
+/-- every factory reset of the history is clean (decidable on histories) -/
+def ResetsClean (cfg : Cfg) : Node → List Op → Prop
+  | _, [] => True
+  | n, op :: rest => (op = .freset → ResetClean n) ∧ ResetsClean cfg (step cfg n op).1 rest
+
+instance decResetsClean (cfg : Cfg) : (n : Node) → (ops : List Op) → Decidable (ResetsClean cfg n ops)
+  | _, [] => by simp only [ResetsClean]; infer_instance
+  | n, op :: rest =>
+    have := decResetsClean cfg (step cfg n op).1 rest
+    by simp only [ResetsClean]; infer_instance
+
+/-- a history without factory reset is one -/
+theorem resetsClean_of_none (cfg : Cfg) : ∀ (ops : List Op) (n : Node), Op.freset ∉ ops → ResetsClean cfg n ops := by
+  intro ops
+  induction ops with
+  | nil => intro _ _; trivial
+  | cons op rest ih =>
+    intro n hno
+    exact ⟨fun he => absurd (by rw [he]; exact List.mem_cons_self) hno,
+      ih _ (fun hm => hno (List.mem_cons_of_mem _ hm))⟩
 
 end Admin
